@@ -2,31 +2,54 @@
 
 proof:          lean/PymtlVerif/Props/C02.lean (overlap exact at bit level; topoB <=> writer-before-reader; Kahn with any
                 tie-break is sound and its leftovers contain a cycle)
+                lean/PymtlVerif/Props/C02m.lean (method constraints: the block pairs GenDAGPass._process_methods adds, see c02_methods.py)
 correspondence: (a) model deps (bit overlap) vs the implementation's _dag.all_constraints; (b) every pass's schedule
                 checked by the model's topoB; (c) run-time call order recorded with sys.setprofile; (d) SimpleSchedulePass
-                schedule replayed through the model's Kahn; (e) explicit U<U constraints, inversions and pure explicit cycles
+                schedule replayed through the model's Kahn; (e) explicit U<U constraints, inversions and pure explicit cycles;
+                (f) method constraints: c02_methods.run (model `process` vs the pairs the pass adds; schedule and run-time call order)
 direct oracle:  positions in the real schedules / real call order vs bit overlap computed independently in Python (rtlgen.py_deps)
 """
 import sys
 
 from ..common import leanio, rtlgen
 from ..common.leanio import InfraError
+from . import c02_methods
 
 PID = 'C02'
 DRIVERS = ['rtl']
-MODULE = 'PymtlVerif.Props.C02'
+MODULE = ['PymtlVerif.Props.C02', c02_methods.MODULE]
 THEOREMS = ['PV.C02.' + t for t in ['overlap_spec', 'rngsOverlap_spec', 'rngsOverlap_comm', 'topo_iff_writer_before_reader',
-                                    'kahn_sound', 'kahn_leftover']]
+                                    'kahn_sound', 'kahn_leftover']] + c02_methods.THEOREMS
+THEOREM_MODULE = {t: c02_methods.MODULE for t in c02_methods.THEOREMS}
 TRUSTED = [
+  'Model/Methods.lean stands for GenDAGPass._process_methods; its input is read off the elaborated design by c02_methods.Extract with the same port/interface -> actual method translation as the pass (dict/set semantics of the method objects)',
   'Model/Rtl.lean footprints: whole signals, fields and slices are bit ranges of the top-level signal; explicit constraints are handled by the harness oracle, not by the Lean model',
   'Kahn model (Model/Kahn.lean) with an arbitrary tie-break oracle stands for SimpleSchedulePass/HeuristicTopoPass.schedule_intra_cycle',
 ]
 ASSUMPTIONS = [
-  'PARTIAL: method-constraint propagation (GenDAGPass._process_methods) and OpenLoopCLPass are not modelled; method ordering is exercised by a run-time call-order probe on the CL queues (pipe: deq before enq, bypass: enq before deq, both textual orders) and by the C17/C18 behavioural checks',
+  'method constraints: GenDAGPass._process_methods is modelled (Model/Methods.lean: == classes by flood fill, pred/succ maps, per-method search with direction w, the four exclusions) and proved (Props/C02m.lean: process_exact = exact characterisation of the added block pairs for any number of hops; sound; complete for direct M<M / U<M / M<U constraints through == classes on both sides; complete along search walks; schedule corollaries incl. Kahn with any tie-break); tied to the code by comparing the added pairs on stdlib CL designs and generated method-port components (harness/checks/c02_methods.py)',
+  'PARTIAL (method clause): not proved and not true of the code — ordering through a chain that passes through a constrained BLOCK is only obtained by composing the two added pairs; exclusions are evaluated on the last hop only; acyclicity of the result is not claimed (cycles are rejected by the scheduler). Not modelled: OpenLoopCLPass (top_level_callee_constraints, its own schedule), blocking FL interfaces / greenlet wrapping (WrapGreenletPass renames blocks in all_constraints), CLLineTracePass wrappers (switched off in the generated-method designs so that method identities stay those the DAG pass used; the queue probe runs with them on)',
   'struct fields are not generated here (bit ranges via slices only); nested-field footprints are covered by the theorem about ranges',
 ]
-RULE = ('C01 designs plus designs decorated with explicit U<U constraints (ordering, inversion of an implicit pair, pure explicit 2-cycles); '
+RULE = ('method clause: stdlib CL chains (1-3 of Pipe/Bypass/Normal/DelayPipeDeq queues, optional StallCL front, deq / deq-side pass-through / DelayPipeSendCL tail, shuffled block order), '
+        'MagicMemoryCL harnesses, generated components with 2-5 method nodes, 2-5 update_once blocks, caller components and random M<M, M==M, U<M, M<U '
+        'constraints (consistent-by-rank, free, exclusion-aimed, rings that must be rejected); non-trivial = the pass adds a pair or rejects the design. '
+        'C01 designs plus designs decorated with explicit U<U constraints (ordering, inversion of an implicit pair, pure explicit 2-cycles); '
         'a case = (design, pass group); non-trivial = at least one dependency edge; distinct by (source, flow)')
+
+# ---- begin: translator-based tie of the slice-overlap test (tools/py2lean_overlap.py; Gen/OverlapGen.lean is regenerated
+# from pymtl3/dsl/Connectable.py before the build, Props/C02Gen.lean proves generated `_overlap` = model `Rng.overlap`)
+MODULE = MODULE + ['PymtlVerif.Props.C02Gen']
+THEOREMS = THEOREMS + ['PV.C02Gen.gen_overlap_eq']
+THEOREM_MODULE['PV.C02Gen.gen_overlap_eq'] = 'PymtlVerif.Props.C02Gen'
+TRUSTED = TRUSTED + ['tools/py2lean_overlap.py (translator, same core and trusted subset as tools/py2lean_bits.py, see the TRUSTED line of C04): `_overlap` / `Signal.slice_overlap` of Connectable.py are regenerated as Gen/OverlapGen.lean; a slice is its three bounds (None or int; ordering None against an int is TypeError), a Signal is the identity of its parent object plus its _dsl.slice; proved equal to Rng.overlap for non-empty slices (lo < hi, which Signal.__getitem__ asserts)']
+def pregen(ck):
+  import importlib.util, os
+  path = os.path.join(leanio.VERIF, 'tools', 'py2lean_overlap.py')
+  spec = importlib.util.spec_from_file_location('py2lean_overlap', path)
+  mod = importlib.util.module_from_spec(spec); spec.loader.exec_module(mod)
+  return mod.pregen()
+# ---- end: translator-based tie
 
 FLOWS = ['default', 'simple', 'heutopo', 'mamba', 'unroll']
 
@@ -162,8 +185,8 @@ CL_BLK_SNK = '''    @update_once
 
 def method_constraint_probe(ck):
   """explicit METHOD ordering constraints (M(x) < M(y)) of the CL queues are honoured by the scheduler whatever the
-  textual order of the calling blocks: pipe = deq before enq, bypass = enq before deq (clause covered by correspondence
-  only: _process_methods is not modelled)"""
+  textual order of the calling blocks: pipe = deq before enq, bypass = enq before deq (with CLLineTracePass wrappers on;
+  the model-based check of _process_methods is c02_methods.py)"""
   import importlib.util, os
   from pymtl3.passes.PassGroups import DefaultPassGroup
   for Q, first in [('PipeQueueCL', 'deq'), ('BypassQueueCL', 'enq')]:
@@ -198,6 +221,7 @@ def method_constraint_probe(ck):
 def run(ck):
   rng = ck.rng
   method_constraint_probe(ck)
+  c02_methods.run(ck)
   n = 200 if ck.tier == 'quick' else 5000
   lines, meta = [], []
   for _ in range(n):
@@ -252,4 +276,5 @@ def run(ck):
 
 def replay(ck, data):
   print(data.get('kind'), data.get('signature')); print(str(data.get('detail'))[:1500])
+  if (data.get('case') or {}).get('methods'): return c02_methods.replay(ck, data['case'])
   return rtlgen.replay_source(ck, data.get('case') or {})
